@@ -120,6 +120,27 @@ def coq_clean_cone(target_v):
                     os.remove(os.path.join(root, f))
 
 
+def coqchk(mod, timeout=2400):
+    """Independent re-check of the compiled property module and everything it depends on (thorough tier).
+    Cached by the digest of the .vo files involved."""
+    with Lock("coq"):
+        h = hashlib.sha1()
+        for root, _, fs in sorted(os.walk(COQ)):
+            for f in sorted(fs):
+                if f.endswith(".vo"):
+                    h.update(f.encode())
+                    h.update(open(os.path.join(root, f), "rb").read())
+        cache = os.path.join(WORK, "coqchk_%s_%s.txt" % (mod.replace(".", "_"), h.hexdigest()[:16]))
+        if os.path.exists(cache):
+            out = open(cache).read()
+        else:
+            rc, out = sh(["timeout", str(timeout), "coqchk", "-silent", "-o", "-Q", COQ, "YQ", "YQ." + mod], cwd=COQ, timeout=timeout + 60)
+            out = "rc=%s\n%s" % (rc, out)
+            open(cache, "w").write(out)
+    ok = out.startswith("rc=0") and "Axioms: <none>" in out.replace("\n  ", " ") or (out.startswith("rc=0") and "* Axioms:" in out and "<none>" in out.split("* Axioms:")[1][:40])
+    return ok, out
+
+
 def theorem_names(props_file):
     src = open(os.path.join(COQ, props_file)).read()
     return re.findall(r"^\s*Theorem\s+([A-Za-z0-9_']+)", src, re.M)
@@ -462,6 +483,11 @@ class Check:
                 self.discharged = max(0, len(re.findall(r"^\s*Theorem\s", "\n".join(src), re.M)) - 1)
             return False, o[-1500:]
         mod = props_file[:-2].replace("/", ".")
+        if self.tier == "thorough":
+            ok_c, clog = coqchk(mod)
+            self.extra["coqchk"] = clog[-1500:]
+            if not ok_c:
+                return False, "coqchk failed: " + clog[-1200:]
         ass, alog = print_assumptions(self.pid, mod, names, self.workdir)
         if ass is None:
             return False, "Print Assumptions failed: " + alog[-1500:]
